@@ -97,6 +97,26 @@ def one_run(ctx, p, decisions=None, rng=None, items=None, tag="random"):
     return ctl
 
 
+def one_run_p(ctx, p, rng, items, p_complete, tag):
+    """like one_run with a chosen probability of letting a job report while events are still queued"""
+    viol = []
+    st, payload, ctl, sched = sc.run_real(p, rng=rng, after_event=oracle_hook(ctx, p, viol), p_complete=p_complete)
+    nontrivial = len(p.specs) >= 2 and any(sp["limits"] for sp in p.specs)
+    key = (json.dumps(p.to_json(), sort_keys=True), tuple(ctl.choice_log)) if nontrivial else None
+    ctx.case(key=key, sample={"program": p.to_json(), "choices": " ".join(ctl.choice_log), "status": st},
+             status=st, jobs=len(p.specs), kind=tag, feasible=sc.feasible(p))
+    case = {"program": p.to_json(), "choices": ctl.choice_log, "status": st}
+    for sig, what, detail in viol[:3]:
+        ctx.violation(sig, what, case=case, expected="within limit", actual=detail, kind="schedule")
+    if st == "ok":
+        left = {k: v for k, v in sched.limits_used.items() if v != 0}
+        if left:
+            ctx.violation("C08-units-not-returned", "limits_used is not zero at the end of a completed run", case=case,
+                          expected={}, actual=left, kind="schedule")
+    items.append((p, ctl, False, None, case))
+    return ctl
+
+
 def flush(ctx, items):
     res = sc.compare_batch(ctx, [(p, ctl, dr, pre) for (p, ctl, dr, pre, _) in items])  # request built now
     for (p, ctl, dr, pre, case), d in zip(items, res):
@@ -118,9 +138,10 @@ def run(ctx):
         flush(ctx, items)
     # generated programs, sampled schedules
     for i in range(ctx.n(60, 700)):
-        p = sc.gen_program(rng)
-        for k in range(2):
-            one_run(ctx, p, rng=random.Random(rng.random()), items=items)
+        wide = i % 3 == 2
+        p = sc.gen_wide(rng) if wide else sc.gen_program(rng)
+        for k in range(3 if wide else 2):
+            one_run_p(ctx, p, random.Random(rng.random()), items, 0.55 if wide else 0.3, "wide" if wide else "random")
         if len(items) >= 50:
             flush(ctx, items)
     flush(ctx, items)
